@@ -66,7 +66,7 @@ def attempt_loop_contract(I, node, frame):
     assign_in_place(atoms.arrays["positions"], old.like(old.term))          # havoc + assume the invariant (object identity kept)
     more = I.path.fresh("another_attempt", "bool")
     if I.path.branch(more.t):
-        yield from I.exec_block(node.body, frame)           # may `return True`
+        yield from I.exec_loop_body(node, frame)           # may `return True`
         I.path.oblige(DM + ".attempt_displacement#loop[0].preserve", inv(), kind="loop")
         raise CutPath()
 
